@@ -10,6 +10,8 @@ R3 block life cycle: finish(X) is followed by reset(X) before X is used again; f
 R4 reader block walk: when a block is exhausted next advances the index iterator once, loads
    the block it names, seeks it to its first entry; failure iff the index is exhausted.
 R5 mtbl_dump filter truth table.
+R6 emptiness witness: the quantity block_builder_empty tests is emptied by reset and grows by a
+   provably positive amount on every path of block_builder_add (else a block is silently skipped).
 """
 import re
 from .common import *
@@ -242,3 +244,83 @@ def run(ctx, res):
                       d.loc(d.body), p.describe(d))
     if n_iter == 0:
         raise BrokenAnalysis("dump(): loop iteration not recognised")
+
+
+    # ---- R6 emptiness witness ---------------------------------------------------------------
+    _emptiness_witness(ctx, res)
+
+
+GROW = {"ubuf_advance": 1, "ubuf_append": 2, "ubuf_add": None}
+SHRINK = ("ubuf_reset", "ubuf_clip", "ubuf_detach", "ubuf_destroy")
+POSITIVE_CALLS = ("mtbl_varint_encode32", "mtbl_varint_encode64", "mtbl_fixed_encode32", "mtbl_fixed_encode64")
+
+
+def _emptiness_witness(ctx, res):
+    """The writer skips the flush of a data block iff block_builder_empty() says so.  Whatever quantity that
+    predicate tests must (a) be emptied by block_builder_reset, (b) grow by a provably positive amount on every
+    path of block_builder_add and never shrink there.  Otherwise some entry leaves the builder looking empty and
+    its block is never written."""
+    prog, cg = ctx.prog, ctx.cg
+    BBU = "mtbl/block_builder.c"
+    res.floor("C01.R6", 3)
+    emp = prog.need("block_builder_empty", BBU)
+    add = prog.need("block_builder_add", BBU)
+    rst = prog.need("block_builder_reset", BBU)
+    for g in (emp, add, rst):
+        res.saw(g)
+    flds = sorted(set(n["field"] for n in walk(emp.body) if n["k"] == "MemberExpr" and n.get("rec") == "block_builder"))
+    if len(flds) != 1:
+        res.bad("C01.R6", site(emp, "witness"), "block_builder_empty tests %s: cannot name the quantity that witnesses emptiness" % flds, emp.loc(emp.body))
+        return
+    X = flds[0]
+    pn = add.params[0]["name"]
+
+    def is_x(v):
+        return re.sub(r"@\d+", "", APE.vstr(v)) == "%s->%s" % (pn, X)
+
+    ev = APE.run(prog, cg, add, bound=1)
+    bad_path = None
+    shrink = None
+    n = 0
+    for p in ev.paths:
+        if p.end != "exit":
+            continue
+        n += 1
+        grew = False
+        for e in p.events:
+            if e.kind == "call" and e.b and is_x(e.b[0]):
+                if e.a in GROW:
+                    k = GROW[e.a]
+                    if k is None:
+                        grew = True
+                    elif k < len(e.b):
+                        amt = e.b[k]
+                        if (amt[0] == "c" and amt[1] > 0) or (amt[0] == "s" and amt[1].startswith(tuple(c + "(" for c in POSITIVE_CALLS))):
+                            grew = True
+                elif e.a in SHRINK:
+                    shrink = (p, e)
+            elif e.kind == "store" and re.sub(r"@\d+", "", e.a) == "%s->%s" % (pn, X):
+                v = e.b
+                if v is not None and v[0] == "s" and re.match(r"^\(%s->%s(@\d+)?\+#[1-9]\d*\)$" % (pn, X), v[1]):
+                    grew = True
+                else:
+                    shrink = (p, e)
+        if not grew and bad_path is None:
+            bad_path = p
+    if n == 0:
+        raise BrokenAnalysis("no normal path through block_builder_add")
+    res.check(bad_path is None, "C01.R6", site(add, "witness-grows:%s" % X),
+              "every add grows %s, the quantity block_builder_empty tests, by a provably positive amount (%d paths)" % (X, n),
+              "block_builder_empty tests %s, which an add does not provably grow (an entry with an empty key or value leaves it at 0): the builder "
+              "then looks empty, the writer skips its flush and the block with that entry is never written" % X,
+              emp.loc(emp.body), bad_path.describe(add) if bad_path is not None else None)
+    res.check(shrink is None, "C01.R6", site(add, "witness-monotonic:%s" % X), "no add shrinks or resets %s" % X,
+              "block_builder_add resets or overwrites %s, the quantity block_builder_empty tests: a non-empty builder can look empty" % X,
+              add.loc(shrink[1].node) if shrink else None, shrink[0].describe(add) if shrink else None)
+    rp = rst.params[0]["name"]
+    emptied = any((c.get("callee") in ("ubuf_reset",) and canon(call_args(c)[0]) == "%s->%s" % (rp, X)) or
+                  (c.get("callee") == "ubuf_clip" and canon(call_args(c)[0]) == "%s->%s" % (rp, X) and const_val(call_args(c)[1]) == 0)
+                  for c in walk(rst.body) if c["k"] == "CallExpr") or \
+        any(lhs["field"] == X and const_val(n_["kids"][1]) == 0 for n_, lhs in field_stores(rst, "block_builder"))
+    res.check(emptied, "C01.R6", site(rst, "witness-reset:%s" % X), "block_builder_reset empties %s" % X,
+              "block_builder_reset does not empty %s: a reset builder does not look empty" % X, rst.loc(rst.body))
